@@ -12,7 +12,7 @@ A(k, fn)   == <<k, "arg", fn, "">>
 N(k, f, g) == <<k, "nest", f, g>>
 Plain      == <<"", "plain", "", "">>
 
-AllKinds == {"*", "*::field", "*::tag", "^a", "a|b", ".*", "zz", "host", "^[abc]$", "^(c|a)$", "^(b|a|b)$"}
+AllKinds == {"*", "*::field", "*::tag", "^a", "a|b", ".*", "zz", "host", "^[abc]$", "^(region|host)$", "^(max|host|max)$"}
 FnStrBool == {"count", "first", "last", "distinct", "elapsed", "mode", "sample"}   \* + string + boolean
 FnBool    == {"min", "max"}                                                        \* + boolean
 FnNoUns   == {"holt_winters", "holt_winters_with_fit"}                             \* - unsigned
@@ -44,7 +44,7 @@ NoCond == {"none"}
 OnlyM1 == {<<"m1">>}
 
 \* ------------------------------------------------------------------ quick (about 3 000 pairs)
-Q_positions_Cores == {F(k) : k \in AllKinds \ {"^[abc]$", "^(b|a|b)$"}}
+Q_positions_Cores == {F(k) : k \in AllKinds \ {"^[abc]$", "^(max|host|max)$"}}
                      \cup {A(k, fn) : k \in {"*", "*::field", "a|b", ".*"}, fn \in {"count", "min", "holt_winters", "mean"}}
                      \cup {N(k, n[1], n[2]) : k \in {"*", "a|b"}, n \in {<<"max", "mean">>, <<"mean", "count">>}}
                      \cup {Plain}
@@ -64,7 +64,7 @@ Q_sources_Srcs == {<<"m1", "m2">>, <<"s_ab">>, <<"s_star">>, <<"s_calls">>, <<"s
 Q_sources_Conds == NoCond
 Q_sources_Schemas == {4, 6, 7, 9, 13}
 
-Q_extras_Cores == {F("*"), A("*", "mean"), F("a|b"), F("*::tag"), F("^(c|a)$"), F("^(b|a|b)$"), Plain}
+Q_extras_Cores == {F("*"), A("*", "mean"), F("a|b"), F("*::tag"), F("^(region|host)$"), F("^(max|host|max)$"), Plain}
 Q_extras_GroupBys == {<<>>, <<"*">>}
 Q_extras_Befores == {"", "a", "b::float", "mean(b)", "a+b"}
 Q_extras_Afters == {"", "c::field", "host", "max(c) AS mc"}
@@ -198,7 +198,7 @@ T_sources_Srcs == AllSrcs
 T_sources_Conds == NoCond
 T_sources_Schemas == {3, 4, 6, 7, 9, 11, 12, 13, 15}
 
-T_extras_Cores == {F("*"), A("*", "mean"), F("a|b"), F("*::tag"), F(".*"), F("^(c|a)$"), F("^(b|a|b)$"), A("^(c|a)$", "max"), Plain}
+T_extras_Cores == {F("*"), A("*", "mean"), F("a|b"), F("*::tag"), F(".*"), F("^(region|host)$"), F("^(max|host|max)$"), A("^(region|host)$", "max"), Plain}
 T_extras_GroupBys == {<<>>, <<"*">>}
 T_extras_Befores == AllExtras \ {"(c)*2", "a,b::integer"}
 T_extras_Afters == {"", "c", "b::float", "host::tag", "c::field", "host::field", "x::field", "mean(b)", "max(c) AS mc",
